@@ -8,6 +8,9 @@
 //!                          runs such as 65536 un-polled writes are one request element, one snapshot at the end)
 //!     ["R", addr, n]       n x LcdController::read(addr) -> "r": the last result, "rs": [number of Some results,
 //!                          FNV-1a/32 over the results (None hashed as 0x100)] -- an encoding of what was returned
+//!     ["S", what]          bystander observation (no LCD access): "snapshot" export_snapshot(), "display" display_buffer(),
+//!                          "save" CoreRuntime::save_snapshot to a temp file on the machine path (export_snapshot elsewhere)
+//!     ["L", meta, "hex"]   load_snapshot(meta, payload) on the live controller -> "l": "accepted" | "rejected"
 //!     ["b"]                remember display_buffer() as the base; -> "b": 32 strings of 240 '0'/'1'
 //!     ["d"]                diff display_buffer() against the base -> "d": [row, col, value, ...]
 //!     ["v"]                export_snapshot() VRAM payload -> "x": hex string
@@ -47,9 +50,17 @@ trait Dev {
     fn display_buffer(&self) -> Buf;
     fn begin_display_write_capture(&mut self);
     fn take_display_write_capture(&mut self) -> Vec<LcdDisplayWrite>;
+    fn load_snapshot(&mut self, metadata: &Value, payload: &[u8]) -> Result<(), String>;
+    /// Whole-machine snapshot save where the device is a machine (None: not a machine).
+    fn save_machine(&mut self) -> Option<Result<(), String>> {
+        None
+    }
 }
 
 impl Dev for LcdController {
+    fn load_snapshot(&mut self, metadata: &Value, payload: &[u8]) -> Result<(), String> {
+        LcdController::load_snapshot(self, metadata, payload)
+    }
     fn write(&mut self, address: u32, value: u8) {
         LcdController::write(self, address, value)
     }
@@ -71,6 +82,9 @@ impl Dev for LcdController {
 }
 
 impl Dev for Box<dyn LcdHal> {
+    fn load_snapshot(&mut self, metadata: &Value, payload: &[u8]) -> Result<(), String> {
+        self.as_mut().load_snapshot(metadata, payload)
+    }
     fn write(&mut self, address: u32, value: u8) {
         self.as_mut().write(address, value)
     }
@@ -160,6 +174,17 @@ impl MachineDev {
 }
 
 impl Dev for MachineDev {
+    fn load_snapshot(&mut self, metadata: &Value, payload: &[u8]) -> Result<(), String> {
+        self.lcd_mut().load_snapshot(metadata, payload)
+    }
+    fn save_machine(&mut self) -> Option<Result<(), String>> {
+        static SEQ: std::sync::atomic::AtomicU32 = std::sync::atomic::AtomicU32::new(0);
+        let k = SEQ.fetch_add(1, std::sync::atomic::Ordering::Relaxed);
+        let path = std::env::temp_dir().join(format!("vh-c15-{}-{}.pcsnap", std::process::id(), k));
+        let r = self.rt.save_snapshot(&path).map_err(|e| e.to_string());
+        let _ = std::fs::remove_file(&path);
+        Some(r)
+    }
     fn write(&mut self, address: u32, value: u8) {
         self.rt.state.set_reg(RegName::A, value as u32);
         self.exec(0xA8, address); // MV [abs20],A
@@ -296,6 +321,47 @@ fn run_ops<D: Dev>(lcd: &mut D, h: &Value, out: &mut Vec<Value>) {
                     out.push(json!({"r": last, "rs": [some, fnv], "s": s, "v": v}));
                 } else {
                     out.push(json!({"r": last, "rs": [some, fnv]}));
+                }
+            }
+            "S" => {
+                // bystander observation: not an LCD-window access.  op[1] names which public observer is called.
+                let what = op.get(1).and_then(|v| v.as_str()).unwrap_or("");
+                let mut done = "done";
+                match what {
+                    "display" => {
+                        let _ = lcd.display_buffer();
+                    }
+                    "save" => match lcd.save_machine() {
+                        Some(Ok(())) => {}
+                        Some(Err(_)) => done = "save-failed",
+                        None => {
+                            let _ = lcd.export_snapshot();
+                        }
+                    },
+                    _ => {
+                        let _ = lcd.export_snapshot();
+                    }
+                }
+                if want_snap {
+                    let (s, v) = snap(&*lcd, &mut prev);
+                    out.push(json!({"l": done, "s": s, "v": v}));
+                } else {
+                    out.push(json!({"l": done}));
+                }
+            }
+            "L" => {
+                // snapshot restore offered to the live controller: op[1] = metadata, op[2] = payload (hex).
+                let meta = op.get(1).cloned().unwrap_or(Value::Null);
+                let payload = unhex(op.get(2).and_then(|v| v.as_str()).unwrap_or(""));
+                let res = match lcd.load_snapshot(&meta, &payload) {
+                    Ok(()) => "accepted",
+                    Err(_) => "rejected",
+                };
+                if want_snap {
+                    let (s, v) = snap(&*lcd, &mut prev);
+                    out.push(json!({"l": res, "s": s, "v": v}));
+                } else {
+                    out.push(json!({"l": res}));
                 }
             }
             "b" => {
